@@ -11,7 +11,8 @@ import struct
 
 from mc import bussim, core, vloop
 
-from ebpfcat.ethercat import EtherCat, Terminal
+from ebpfcat.ebpfcat import SyncGroupBase
+from ebpfcat.ethercat import EtherCat, SyncManager, Terminal
 
 PROP = "C20"
 LEVEL = "model_checking"
@@ -32,8 +33,9 @@ def is_faulted(op):
 
 
 class World:
-    def __init__(self, n_fmmu, base=0x100):
+    def __init__(self, n_fmmu, base=0x100, sizes=(4, 6)):
         self.base = base
+        self.sizes = sizes      # (input bytes, output bytes); 0 is legal
         self.loop = vloop.VLoop()
         self.loop.__enter__()
         self.t = bussim.Terminal("t", station=77, n_fmmu=n_fmmu)
@@ -42,12 +44,13 @@ class World:
         term = self.term = Terminal(self.m.ec)
         term.position = 77
         term.fmmu_used = [None] * n_fmmu
-        term.pdo_in_off, term.pdo_in_sz = 0x1100, 4
-        term.pdo_out_off, term.pdo_out_sz = 0x1000, 6
+        term.pdo_in_off, term.pdo_in_sz = 0x1100, sizes[0]
+        term.pdo_out_off, term.pdo_out_sz = 0x1000, sizes[1]
         self.live = []      # (logical, write, cm, slot)
         self.counter = 0
         self.everlive = 0
         self.faults = 0
+        self.failed = 0     # mappings that ended by an exception
         self.fail_next = False
         orig = self.t.write
 
@@ -88,8 +91,15 @@ class World:
                                      for m in self.live)]
                 if other:       # else: like a plain map
                     logical = other[-1][0]
-            cm = self.term.map_fmmu(logical, op[1])
-            fut = asyncio.ensure_future(cm.__aenter__())
+            try:
+                cm = self.term.map_fmmu(logical, op[1])
+                coro = cm.__aenter__()
+            except Exception as e:
+                # refused where the mapping was requested
+                async def refuse(e=e):
+                    raise e
+                coro = refuse()
+            fut = asyncio.ensure_future(coro)
 
             def done():
                 if fut.exception() is not None:
@@ -99,8 +109,34 @@ class World:
                 self.everlive = max(self.everlive, len(self.live))
                 return ("mapped", slot)
             return fut, done
+        if op[0] == "group":
+            # both directions of the terminal through the sync group's own
+            # map_fmmu (SyncGroupBase.map_fmmu on a group that knows only
+            # its FMMU addresses)
+            self.counter += 2
+            lo = self.base + 0x10000 * (self.counter - 2)
+            li = self.base + 0x10000 * (self.counter - 1)
+            group = type("G", (), {})()
+            group.fmmu_maps = {self.term: {SyncManager.OUT: lo,
+                                           SyncManager.IN: li}}
+            cm = SyncGroupBase.map_fmmu(group)
+            fut = asyncio.ensure_future(cm.__aenter__())
+
+            def done():
+                if fut.exception() is not None:
+                    # the group's first mapping was unwound by the
+                    # exception: its FMMU is freed, but (as with every
+                    # mapping left by an exception) not switched off
+                    self.failed += 1
+                    return ("failed", type(fut.exception()).__name__)
+                self.live.append((lo, True, cm, None))
+                self.live.append((li, False, cm, None))
+                self.everlive = max(self.everlive, len(self.live))
+                return ("mapped", "group")
+            return fut, done
         logical, write, cm, slot = self.live[op[1]]
-        self.leaving.append(self.live[op[1]])
+        # a group's two mappings end together
+        self.leaving += [l for l in self.live if l[2] is cm]
         fut = asyncio.ensure_future(cm.__aexit__(None, None, None))
 
         def done():
@@ -143,7 +179,8 @@ class World:
         regs = self.fmmu_regs()
         slots = []
         for logical, write, cm, slot in self.live:
-            off, size = (0x1000, 6) if write else (0x1100, 4)
+            off, size = (0x1000, self.sizes[1]) if write \
+                else (0x1100, self.sizes[0])
             hit = [i for i, r in enumerate(regs)
                    if r == (logical, size, off, 2 if write else 1, 1)]
             if self.faults and len(hit) > 1 and slot in hit:
@@ -174,7 +211,8 @@ class World:
             return (want, table, "slot table: an ended mapping still holds "
                     "its FMMU / a live one lost it", None)
         active = [i for i, r in enumerate(regs) if r[4]]
-        if self.faults == 0 and sorted(active) != sorted(slots):
+        if self.faults == 0 and self.failed == 0 and \
+                sorted(active) != sorted(slots):
             return ("only live mappings active: %s" % sorted(slots),
                     active, "an ended mapping's FMMU is still active / a "
                     "foreign one was switched off", KF if any(
@@ -184,7 +222,7 @@ class World:
     def canon(self):
         return (self.fmmu_regs(),
                 tuple((l[1], l[3]) for l in self.live),
-                tuple(self.term.fmmu_used), self.faults)
+                tuple(self.term.fmmu_used), self.faults, self.failed)
 
 
 def build(conf, hist):
@@ -197,7 +235,8 @@ def build(conf, hist):
 
 def work(conf, res):
     n_fmmu = conf
-    depth = work.depth
+    # the empty-sync-manager terminals one step less deep
+    depth = work.depth - (1 if len(conf) > 2 else 0)
     seen = set()
     frontier = [()]
     w, _ = build(n_fmmu, ())
@@ -209,9 +248,13 @@ def work(conf, res):
             w, _ = build(n_fmmu, hist)
             nlive = len(w.live)
             live_keys = [(l[0], l[1]) for l in w.live]
+            dup = {j for j, l in enumerate(w.live)
+                   if any(m[2] is l[2] for m in w.live[:j])}
             w.close()
             basic = [("map", False), ("map", True)] + \
-                [("unmap", j) for j in range(nlive)]
+                [("unmap", j) for j in range(nlive) if j not in dup]
+            if not any("group" in str(o) for o in hist):
+                basic.append(("group",))    # at most one per sequence
             for wr in (False, True):
                 if any(d != wr and (a, wr) not in live_keys
                        for a, d in live_keys):
@@ -221,7 +264,8 @@ def work(conf, res):
                 ops += [(o[0], o[1], True) for o in basic
                         if o[0] in ("map", "mapsame")][2:] + \
                     [("map", False, True), ("map", True, True)] + \
-                    [("unmap", j, True) for j in range(nlive)]
+                    [("unmap", j, True) for j in range(nlive)
+                     if j not in dup]
             if sum(1 for o in hist if o[0] == "par") < work.pars:
                 ops += [("par", a, b) for a in basic for b in basic
                         if not (a[0] == b[0] == "unmap" and a[1] == b[1])
@@ -234,6 +278,8 @@ def work(conf, res):
                 kind, detail = results[-1]
                 res.outcomes.add((kind, len(w.live)))
                 case = dict(n_fmmu=n_fmmu[0], base=n_fmmu[1], hist=h2)
+                if len(n_fmmu) > 2:
+                    case["sizes"] = list(n_fmmu[2])
                 bad = None
                 faulted = is_faulted(op)
                 if kind == "hang" or (kind == "unmap raised"
@@ -278,8 +324,10 @@ def run(ctx):
     work.faults = 1 if ctx.quick else 2
     work.pars = 1 if ctx.quick else 2
     # base: logical address of the first mapping (0 is a legal one)
-    res = core.pmap(ctx, work, [(n, base) for n in (1, 2, 3, 4)
-                                for base in (0, 0x100)], chunk=1)
+    confs = [(n, base) for n in (1, 2, 3, 4) for base in (0, 0x100)]
+    # a direction whose sync manager exists but is empty
+    confs += [(n, 0x100, sz) for n in (2, 3, 4) for sz in ((0, 6), (4, 0))]
+    res = core.pmap(ctx, work, confs, chunk=1)
     res.cov["traces_validated_against_impl"] = res.cov.get("evaluations", 0)
     res.cov["depth"] = work.depth
     res.sample(dict(n_fmmu=3, hist=[["map", True], ["map", True],
@@ -301,7 +349,10 @@ def replay(ctx, rep):
     def tup(op):
         return tuple(tup(x) if isinstance(x, list) else x for x in op)
     hist = tuple(tup(op) for op in c["hist"])
-    w, results = build((c["n_fmmu"], c.get("base", 0x100)), hist)
+    conf = (c["n_fmmu"], c.get("base", 0x100))
+    if c.get("sizes"):
+        conf += (tuple(c["sizes"]),)
+    w, results = build(conf, hist)
     for op, r in zip(hist, results):
         print("  ", op, "->", r)
     print("regs", w.fmmu_regs(), "table", w.term.fmmu_used)
